@@ -394,6 +394,10 @@ func specLkAfter(kind, lk int) int {
 // C06: Parse is total: no panic and every loop has a ranking function, for
 // every byte string (smaller than 4 GiB, see above).
 
+// A parsed File's maps are created by Parse and never replaced.
+//@ field-constraint File.Meta: new == old
+//@ field-constraint File.Count: new == old
+
 //@ contract Parse
 //@   requires $private
 //@   requires len(data) < 1<<32
@@ -415,6 +419,7 @@ func specLkAfter(kind, lk int) int {
 // which the property excludes).
 
 //@ ghost minsize int
+//@ ghost fsops wide
 
 // specMapped: the representation invariant of a mappedFile that openMapped
 // returned: the mapping exists, covers at least the first page, and the header
@@ -544,3 +549,28 @@ func specMapped(m *mappedFile) bool {
 //@   loop 1: invariant -1 <= rangeindex && rangeindex < len(c.stacks)
 //@   loop 1: decreases len(c.stacks)-rangeindex
 //@   modifies heap
+
+// ---------------------------------------------------------------------------
+// C09: the week a counter file covers.
+//
+//	$now      the time CounterTime returned inside counterSpan
+//	$weekend  the week-end day weekEnd returned inside counterSpan
+
+//@ ghost now time
+//@ ghost weekend int
+
+// weekEnd: whatever the weekends file holds, the result is a weekday 0..6.
+//@ contract weekEnd
+//@   ensures result1 == nil ==> 0 <= result0 && result0 <= 6
+//@   modifies $fsops
+
+// counterSpan: begin is 00:00 UTC of the current day; end is 00:00 UTC of the
+// first later day that falls on the configured weekday, one to seven days later.
+//@ contract counterSpan
+//@   at call dyn#1: after ghost $now = result
+//@   at call weekEnd#1: after ghost $weekend = int(result0)
+//@   ensures result2 == nil ==> !begin.After($now) && $now.Sub(begin) < 24*time.Hour
+//@   ensures result2 == nil ==> 24*time.Hour <= end.Sub(begin) && end.Sub(begin) <= 7*24*time.Hour
+//@   ensures result2 == nil ==> int(end.Weekday()) == $weekend
+//@   ensures result2 == nil ==> forall j int :: 1 <= j && j <= 6 && time.Duration(j)*24*time.Hour < end.Sub(begin) ==> (int(begin.Weekday())+j)%7 != $weekend
+//@   modifies $fsops, $now, $weekend
